@@ -59,7 +59,8 @@ def run(ctx):
                    'harness/cmd/c13gen + lean/Drivers/C13.lean line protocol', 'Lean compiler for the driver executable']
     ctx.assumptions = ['package.json sections have unique keys and, per section, distinct real package names (Go map order would otherwise decide)',
                        'updates carry plain version strings (no ":", "/", "@"); an aliased update names its package and a non-empty old version',
-                       'pom model: no local parents, plugins, imports, active profiles; property values are literals; one update per dependency key']
+                       'pom model: no local parents, plugins, imports, active profiles; property values are literals; one update per dependency key',
+                       'a property used in a dependency version is defined in the project or in that dependency\'s own profile (or nowhere); a property defined only in ANOTHER profile still passes fix f5d17448\'s by-name test and is patched into a <properties> element that does not hold it (reported, not generated)']
     ctx.rule = ('npm case = three sections (0-4 entries, 26 names incl. dotted/scoped/wildcard/escaped/non-ASCII, plain/alias/non-registry values, repeated keys across sections) in a '
                 'random layout (indent, key order, noise sections) x a subset of the requirements Read reports as updates (some with a wrong old version or an ill-formed new one); '
                 'thorough adds every section combination x equal/different versions x 8 names, plain and aliased. '
